@@ -744,6 +744,18 @@ theorem proxyLoop_eq (ops : Ops) (h : Header) : ∀ (fails : Nat) (cur : Header)
 
 end
 
+/-! ### FastCGI environment -/
+
+theorem hGet_mem (h : Header) (k : Bytes) (v : Option (List Bytes)) (hg : hGet h k = some v) : (k, v) ∈ h := by
+  induction h with
+  | nil => simp [hGet] at hg
+  | cons e rest ih =>
+    obtain ⟨ek, ev⟩ := e
+    unfold hGet at hg
+    split at hg
+    · rename_i hk; cases hg; subst hk; simp
+    · exact List.mem_cons_of_mem _ (ih hg)
+
 /-! ### Caddyfile glue -/
 
 theorem expandRanges_mem (args : List Bytes) (r : Bytes) (h : r ∈ expandRanges args) :
